@@ -9,6 +9,36 @@ CHECKS = {
  'C01': ('exploration', 'runtime monitoring: lock-step differential transcript over 4 real nodes with different identities/roles/config',
          'Held on the seeded mixed histories executed (counts in the evidence): every compared block returned identical Commit.Data, EndBlock.ValidatorUpdates, DeliverTx code/data/gas and InitChain validators on a stranger node, a witness validator (restarted once), a validator with OLTEST=1 and other rotation settings, and a second stranger run. Order-dependence on map iteration is detected probabilistically by repetition.',
          'Trusts Tendermint v0.33.3 executor/handshake/indexer and the harness-built blocks (validated by Tendermint on every replica). Covers only kinds/hooks the scripts drive (listed in the evidence counters).', 'DESIGN.md 7 C01'),
+ 'C02': ('exploration', 'runtime monitoring: ledger invariant over the decoded committed state after every Commit (mixed histories + isolated hostile-amount probes on forks)',
+         'Held on every block transition observed: per currency the decoded system total never grew beyond the block-reward delegation share / confirmed locks, and no decoded amount was negative; hostile amount and currency traits on every amount-bearing field of every kind the workload produces were sent through honest admission on forks and watched past the maturities.',
+         'Ledger prefix table (unknown prefix => inconclusive); wrapped allowance computed from tracker records parsed by the harness.', 'DESIGN.md 7 C02'),
+ 'C03': ('exploration', 'runtime monitoring: per-owner ledger deltas vs. the set of signers of code-0 transactions (mixed histories + address-trait probes on forks)',
+         'Held on every block transition observed: no watched externally owned account lost holdings in a block in which it neither signed a successful transaction nor was the stake account of a signing or guilty validator; payloads naming third-party addresses in every address-typed field were probed.',
+         'The generator knows who signed; guilty verdicts are read from the freeze records.', 'DESIGN.md 7 C03'),
+ 'C04': ('exploration', 'runtime monitoring: metamorphic single-field mutants of valid signed transactions at the ABCI boundary (CheckTx + byzantine block on forks, state compared with an empty-block twin)',
+         'Held on every mutant executed: each mutant that an independent re-verification found no longer authentic got a non-zero CheckTx code, a non-zero DeliverTx code when delivered alone in a byzantine block, and left the committed state identical to an empty block\'s.',
+         'Independent authenticity decision uses the linked crypto libraries; bases come from the workload (kinds listed in the evidence).', 'DESIGN.md 7 C04'),
+ 'C05': ('exploration', 'runtime monitoring: resubmission of executed transactions in equivalent encodings (CheckTx + byzantine block on forks, state compared with an empty-block twin, also after restart)',
+         'Held on every resubmission executed: identical bytes and every other encoding that the repository\'s own deserialiser maps to the same signed content was refused by CheckTx and changed nothing when delivered later.',
+         'The box waits for Tendermint\'s asynchronous indexer before resubmitting.', 'DESIGN.md 7 C05'),
+ 'C06': ('exploration', 'runtime monitoring: lock-step twin that receives every block without the transactions that failed on the leader',
+         'Held on every block compared: the twin committed the same app hash and returned the same results for the surviving transactions; failures were produced inside handlers and fee steps (gas limits below consumption, conflicting spends, byzantine delivery of rejected transactions).',
+         'MaxGas = -1; events and block hashes not compared.', 'DESIGN.md 7 C06'),
+ 'C07': ('exploration', 'runtime monitoring: lock-step twin with CheckTx calls injected at every class of ABCI call boundary',
+         'Held on every block compared: a twin that additionally received CheckTx calls (the block\'s own, rejected, later, and check-only expire/finalize transactions) before/after BeginBlock, each DeliverTx, EndBlock and Commit produced the same consensus projection as the leader that received none.',
+         'Injection happens where Tendermint\'s single ABCI mutex allows a CheckTx: between two consensus calls.', 'DESIGN.md 7 C07'),
+ 'C08': ('fault_enumeration', 'runtime monitoring with fault injection: SIGKILL at enumerated ABCI call boundaries, restart through the production start-up path, differential against the uninterrupted leader',
+         'Held on every crash point executed: after a kill at each boundary class (after SaveBlock, BeginBlock, k-th DeliverTx, EndBlock, Commit, state save) the node restarted from disk, Info reported the last completed commit, the handshake replay reproduced the leader\'s results and every later block agreed.',
+         'kill -9 at ABCI boundaries; torn writes below the syscall boundary out of reach.', 'DESIGN.md 7 C08'),
+ 'C09': ('exploration', 'runtime monitoring: op-by-op differential of the real storage.State/ChainState against a reference map model and write-projection twin stores (exhaustive short sequences + long random ones)',
+         'Held on all sequences executed: every Get/Exists/GetVersioned/Commit/reopen result equalled the reference model, and the root hash equalled that of twin stores that only received the writes; all sequences of length 4 (quick) / 6 (thorough) over a 17-op alphabet in five gas modes plus long random sequences on goleveldb with several rotation settings.',
+         'Rotation: only versions the documented policy keeps are asserted.', 'DESIGN.md 7 C09'),
+ 'C16': ('exploration', 'runtime monitoring: differential of vm.CommitStateDB against go-ethereum core/state.StateDB under the same interpreter (interface op sequences + generated bytecode transaction sequences with gas sweeps)',
+         'Held (up to the listed known findings) on all cases executed: every interface call return value, every transaction result (gas, return data, error class, logs) and every touched account/slot after each Finalise and block commit agreed with go-ethereum\'s state.',
+         'Reference message rules are a line-for-line port of vm/state_transition.go so that only the state implementation differs; BASEFEE/BLOCKHASH not generated.', 'DESIGN.md 7 C16'),
+ 'C18': ('exploration', 'runtime monitoring from outside the process: exit status, panic marker and liveness probe of nodes fed hostile inputs (CheckTx and byzantine delivery on forks)',
+         'Held on every input executed: structure-aware hostile transactions of every kind, JSON-structure mutations, raw byte strings, hostile embedded Ethereum transactions and OLVM programs/fields neither killed the node nor triggered the handlePanic shutdown, and a plain transfer still worked afterwards.',
+         'Batches of 8 inputs per fork, bisected to single inputs on failure.', 'DESIGN.md 7 C18'),
 }
 
 NOT_YET = {}
